@@ -67,6 +67,8 @@ def run(ctx) -> None:
   ctx.rule('R5', 'both update_metadata implementations use merge_study_metadata / merge_trial_metadata', 2)
   ctx.rule('R6', 'datastores are pass-by-value (see C01.R6)', 20)
   ctx.rule('R7', 'max_* queries are not count-based where single elements can be deleted', 2)
+  ctx.rule('R8', 'every SQL filter is an exact equality on key columns (the RAM backend addresses '
+           'rows by exact dict keys): no LIKE/startswith/contains/range filters', 30)
   if len(svc.ds_abstract) < 20:
     raise AnalysisError(f'only {len(svc.ds_abstract)} abstract DataStore methods found (20 on the pinned tree)')
 
@@ -77,6 +79,7 @@ def run(ctx) -> None:
   r5_merge(ctx, svc)
   C01.r6_pass_by_value(ctx, svc)
   r7_max(ctx, svc)
+  r8_exact_filters(ctx, svc)
 
 
 # ----------------------------------------------------------------------- R1
@@ -440,6 +443,22 @@ def r7_max(ctx, svc: Svc) -> None:
               'the SQL backend (max query) does not', construct=mx, func=impl.qualname)
 
 
+def r8_exact_filters(ctx, svc: Svc) -> None:
+  for m in svc.sql.methods.values():
+    for c in flow.calls_in(m.node):
+      if isinstance(c.func, ast.Attribute) and c.func.attr in ('where', 'filter', 'filter_by', 'having'):
+        for a in c.args:
+          ok = isinstance(a, ast.Compare) and len(a.ops) == 1 and isinstance(a.ops[0], ast.Eq) and any(
+              isinstance(x, ast.Attribute) and isinstance(x.value, ast.Attribute) and x.value.attr == 'c'
+              for x in ast.walk(a.left))
+          ctx.check(ok, 'R8', f'SQL.{m.name}: filter', a,
+                    'exact equality on a key column',
+                    f'filter `{unparse(a, limit=100)}` is not an exact key equality: pattern / prefix / '
+                    'range matches also select rows of sibling resources (e.g. study `tune_1` vs `tune_10`, '
+                    'LIKE wildcards `_` `%`), which the RAM backend (exact dict keys) never does',
+                    construct=a, func=m.qualname)
+
+
 _RAM = 'vizier/_src/service/ram_datastore.py'
 _SQL = 'vizier/_src/service/sql_datastore.py'
 VARIANTS = [
@@ -474,5 +493,8 @@ VARIANTS = [
     Variant('sql-update-study-no-exist-check', _SQL,
             "      if not self._connection.execute(eq).fetchone()[0]:\n        raise NotFoundError('Study %s does not exist.' % study.name)\n      self._write_or_rollback(uq)",
             "      self._write_or_rollback(uq)", rule='R2'),
+    Variant('sql-list-trials-prefix', _SQL,
+            '    lq = lq.where(self._trials_table.c.owner_id == study_resource.owner_id)\n    lq = lq.where(self._trials_table.c.study_id == study_resource.study_id)',
+            '    lq = lq.where(self._trials_table.c.trial_name.startswith(study_name))', rule='R8'),
     Variant('benign-ram-rename', _RAM, 'trial_protos', 'trial_map', expect='silent', count=17),
 ]
